@@ -5,6 +5,28 @@
 -/
 import VDriver.Util
 import VDriver.Json
+import VDriver.Ident
+import VDriver.B64
+import VDriver.Limits
+import VDriver.Vertable
+import VDriver.Tokens
+import VDriver.Keyring
+import VDriver.Resolve
+import VDriver.Cidr
+import VDriver.Wellknown
+import VDriver.Fedreq
+import VDriver.Conc
+import VDriver.Sign
+import VDriver.Signers
+import VDriver.Redact
+import VDriver.Event
+import VDriver.Auth
+import VDriver.Pl
+import VDriver.Ctx
+import VDriver.Stateres
+import VDriver.Topo
+import VDriver.Fedcheck
+import VDriver.Handshake
 
 open V.Driver
 
@@ -17,6 +39,28 @@ def dispatch (line : String) : String :=
   | [area, op] =>
     let r : Option String := match area with
       | "json" => JsonOps.handle op args
+      | "ident" => IdentOps.handle op args
+      | "b64" => B64Ops.handle op args
+      | "limits" => LimitsOps.handle op args
+      | "vertable" => VertableOps.handle op args
+      | "tokens" => TokensOps.handle op args
+      | "keyring" => KeyringOps.handle op args
+      | "resolve" => ResolveOps.handle op args
+      | "cidr" => CidrOps.handle op args
+      | "wellknown" => WellknownOps.handle op args
+      | "fedreq" => FedreqOps.handle op args
+      | "conc" => ConcOps.handle op args
+      | "sign" => SignOps.handle op args
+      | "signers" => SignersOps.handle op args
+      | "redact" => RedactOps.handle op args
+      | "event" => EventOps.handle op args
+      | "auth" => AuthOps.handle op args
+      | "pl" => PlOps.handle op args
+      | "ctx" => CtxOps.handle op args
+      | "stateres" => StateresOps.handle op args
+      | "topo" => TopoOps.handle op args
+      | "fedcheck" => FedcheckOps.handle op args
+      | "handshake" => HandshakeOps.handle op args
       | _ => none
     r.getD "bad-op"
   | _ => "bad-op"
